@@ -63,6 +63,12 @@ CASES = [
     dict(name='twin-search-prunes-leaf-expressions', kind='twin', edits=[dict(file=ST,
          old="        for std_child in std_node.children:\n            matching_c = self.any_node_match(",
          new="        for std_child in std_node.children:\n            if isinstance(ins_node.astNode, ast.stmt) and isinstance(std_child.astNode, ast.expr_context):\n                continue\n            matching_c = self.any_node_match(")]),
+    m('primitive-fields-compared-by-identity', 'R7', 'equal-nodes-match',
+      "                        is_match = (type(inssub_value) is type(stdsub_value) and\n                                    inssub_value == stdsub_value)",
+      "                        is_match = inssub_value is stdsub_value"),
+    dict(name='twin-primitive-fields-identity-shortcut', kind='twin', edits=[dict(file=ST,
+         old="                        is_match = (type(inssub_value) is type(stdsub_value) and\n                                    inssub_value == stdsub_value)",
+         new="                        is_match = inssub_value is stdsub_value or (\n                            type(inssub_value) is type(stdsub_value) and inssub_value == stdsub_value)")]),
     dict(name='twin-children-copied-before-search', kind='twin', edits=[dict(file=ST,
          old="        for std_child in std_node.children:\n            matching_c = self.any_node_match(",
          new="        for std_child in list(std_node.children):\n            matching_c = self.any_node_match(")]),
